@@ -70,7 +70,7 @@ func propSpecs() map[string]*PropSpec {
 	}
 	tmo := func(tier string) time.Duration {
 		if tier == "thorough" {
-			return 300 * time.Second
+			return 150 * time.Second
 		}
 		return 60 * time.Second
 	}
